@@ -113,7 +113,7 @@ class Simulator:
                 leaf = self.propagatables[i]
                 pos = self.findFirstDependentPosition(leaf)
                 
-                if (pos >= 0 and pos < i):
+                if (pos >= 0 and pos <= i):
                     # exchange position, put dependent last
                     first = self.propagatables[pos]
                     self.propagatables[pos] = leaf
